@@ -23,7 +23,13 @@ Harness (real code, bitwise): each script is run once in a fresh process (refere
 * while a set-up on ANOTHER engine object is refused mid-run (misspelt option, script without times and t_max),
 * stochastic set-ups redistributing an odd number of >= 100-molecule entries, repeated / after one another in one process,
 * tau-leap on grids with channel means >= 12 per step (tens of thousands of molecules per cell: the normal-approximation
-  branch of std::poisson_distribution), repeated four times and after other such runs in the same process.
+  branch of std::poisson_distribution), repeated four times and after other such runs in the same process,
+* tau-leap (grid and graph) whose channel means are >= 12 and bitwise CONSTANT from draw to draw and from one simulation to the
+  next (a chemostatted substrate at the same amount in every cell / a zero-order source, product inert in the pure instances),
+  under the same repetitions,
+* step-wise API with the caller re-arming ITS script object (seed incl. None -> newly drawn, requested times, time step) between
+  setup() and get_output(), at the end of the run or mid-run, scripts with a given seed and scripts built without one: the
+  trajectory is the reference one, stores the seed it was simulated with, and its stored script reproduces it.
 Oracle: bitwise equality (sha1 of t.tobytes() + data.tobytes()) with the reference.
 Correspondence: op `lifecycle` — the model replays the schedule (run slices with the iteration counts read off the native
 clock) and must yield the recorded times of the real trajectory.
@@ -64,13 +70,14 @@ def rand_schedule(rng):
     return steps
 
 
-KINDS = ["schedule", "twice", "after_others", "simulate", "resim", "reused", "noseed", "poll_reused", "edit_resim", "refused_other", "outsys_resim", "units_reuse"]
+KINDS = ["schedule", "twice", "after_others", "simulate", "resim", "reused", "noseed", "poll_reused", "edit_resim", "refused_other", "outsys_resim", "units_reuse",
+         "edit_live", "edit_live_noseed"]
 
 
 def run(ctx):
     rng = ctx.rng
     n = ctx.n(25, 300)
-    nsched = ctx.n(12, 30)
+    nsched = ctx.n(14, 30)
     entries = []
     for i in range(n):
         option = lc.OPTIONS[i % 3]
@@ -103,6 +110,41 @@ def run(ctx):
                                     "units_system": {"time": "s", "space": "µm", "quantity": "molecule"}}}
         info = {"option": "tauleap", "policy": S["kw"]["sampling_policy"], "space": "grid", "bigmean": True, "nsp": 2, "n": ncell}
         entries.append({"S": S, "info": info, "option": "tauleap", "eng": "tauleap", "idx": n + b, "bigmean": True})
+    # tau-leap whose channel means are >= 12 AND bitwise CONSTANT from draw to draw (also from the last draw of one simulation to
+    # the first draw of the next): a substrate held by a chemostat at the same amount in every cell, or a zero-order source in
+    # cells of equal volume; the product neither reacts back nor diffuses in the "pure" instances (every Poisson draw of the whole
+    # run has one and the same mean), later instances add a back reaction / a diffusing product (two alternating means)
+    for b in range(ctx.n(4, 12)):
+        kind_sp = ["grid", "graph"][b % 2]
+        source = ["chemostat", "zero_order"][(b // 2) % 2]
+        pure = b < 4 or rng.random() < 0.5
+        ncell = rng.choice([1, 1, 2, 3])
+        if kind_sp == "grid":
+            space = {"type": "grid", "w": ncell, "h": 1, "d": 1, "cell_volume": 1.0, "cell_env": [0] * ncell, "boundary_conditions": {}}
+        else:
+            space = {"type": "graph", "nodes": [{"volume": 1.0, "environment": 0} for _ in range(ncell)],
+                     "edges": [{"nodes": [i, i + 1], "surface": 1.0, "distance": 1.0} for i in range(ncell - 1)]}
+        dt = rng.choice([0.01, 1e-3, 0.0078125])
+        mean = rng.choice([12.5, 20.0, 50.0, 130.0, 700.0])
+        kback = 0.0 if pure else rng.choice([0.0, 0.5])
+        DB = 0.0 if pure else rng.choice([0.0, 0.5])
+        if source == "chemostat":
+            kf = rng.choice([1.0, 2.0, 0.5])
+            nA = float(round(mean / (kf * dt)))
+            species = [{"label": "A", "density": 0, "D": 0.0, "chstt": True}, {"label": "B", "density": 0, "D": DB}]
+            reactions = [{"eq": "A -> B", "k+": kf, "k-": kback}]
+            state = [nA] * ncell + [float(rng.choice([0, 7]))] * ncell
+        else:
+            species = [{"label": "A", "density": 0, "D": 0.0}, {"label": "B", "density": 0, "D": DB}]
+            reactions = [{"eq": " -> B", "k+": mean / dt, "k-": kback}]
+            state = [float(rng.choice([0, 3]))] * ncell + [float(rng.choice([0, 7]))] * ncell
+        sysd = {"network": {"species": species, "reactions": reactions, "environments": ["a"]}, "space": space, "state": state}
+        nst = rng.randint(9, 45)
+        S = {"system": sysd, "kw": {"t_sample": [0.0, dt * (nst // 2), dt * nst], "time_step": dt, "sampling_policy": rng.choice(["on_t_sample", "on_iteration"]),
+                                    "rng_seed": rng.randint(0, 2 ** 31 - 1), "init_state_processing": "none",
+                                    "units_system": {"time": "s", "space": "µm", "quantity": "molecule"}}}
+        info = {"option": "tauleap", "policy": S["kw"]["sampling_policy"], "space": kind_sp, "constmean": source, "nsp": 2, "n": ncell, "mode": "none"}
+        entries.append({"S": S, "info": info, "option": "tauleap", "eng": "tauleap", "idx": n + 600 + b, "bigmean": True, "constmean": True})
     # stochastic set-ups with redistribution ("redist" / "auto") of an ODD number of entries with >= 100 molecules (the normal
     # approximation of the redistribution draws deviates in pairs): repeated and run after one another in one process
     for b in range(ctx.n(3, 9)):
@@ -222,7 +264,7 @@ def run(ctx):
                 kind = "schedule" if v % 2 == 0 else "after_others"
                 others = [o for o in good if o is not e and o["eng"] == "euler" and o["info"].get("space") != e["info"].get("space")] or others
             if e.get("digits"):
-                kind = ["persist:dict", "persist:file", "persist:traj_dict", "persist:traj_file", "noseed", "schedule"][v % 6]
+                kind = ["persist:dict", "persist:file", "persist:traj_dict", "persist:traj_file", "noseed", "schedule", "edit_live"][v % 7]
             if e.get("bigmean"):
                 kind = ["repeat4", "after_others", "reused", "twice", "resim", "poll_reused"][v % 6]
                 others = [o for o in good if o is not e and o.get("bigmean")] or others
@@ -325,6 +367,32 @@ def run(ctx):
                           {"obj": 0, "call": "edit_script", "script": 0,
                            "set": {"rng_seed": (e["S"]["kw"]["rng_seed"] + 1 + rng.randint(0, 1000)) % (2 ** 31), "time_step_factor": 0.5}},
                           {"obj": 0, "call": "new"}, {"obj": 0, "call": "resim"}]
+            elif kind in ("edit_live", "edit_live_noseed"):
+                # a replicate loop re-using one RDScript object with the step-wise API: set-up, drive, then the caller re-arms ITS
+                # script object for the next replicate (seed, requested times, time step) BEFORE it collects the output of the
+                # running one; the trajectory is that of the script as it was set up, and so is the script stored in it
+                si = 0
+                if kind == "edit_live_noseed":
+                    S6 = json.loads(json.dumps(e["S"]))
+                    S6["kw"]["rng_seed"] = None
+                    scripts.append(S6)
+                    si = len(scripts) - 1
+                    edit = rng.choice([{"rng_seed": None}, {"rng_seed": rng.randint(0, 2 ** 32 - 1)}, {"rng_seed": None, "t_sample": [0.0]}])
+                else:
+                    seed2 = (e["S"]["kw"]["rng_seed"] + 1 + rng.randint(0, 1000)) % (2 ** 31)
+                    edit = rng.choice([{"rng_seed": seed2}, {"rng_seed": None}, {"rng_seed": seed2, "t_sample": [0.0]}, {"t_sample": [0.0], "time_step_factor": 0.5},
+                                       {"rng_seed": seed2, "time_step_factor": 0.5}])
+                when = rng.choice(["end", "end", "mid"])
+                calls += [{"obj": 0, "call": "setup", "script": si, "peek": True}]
+                if when == "mid":
+                    calls += [{"obj": 0, "call": "iterate_n", "n": rng.choice([1, 2, 5])},
+                              {"obj": 0, "call": "edit_script", "script": si, "set": edit},
+                              {"obj": 0, "call": "schedule", "steps": sched, "max": 100000}]
+                else:
+                    calls += [{"obj": 0, "call": "schedule", "steps": sched, "max": 100000},
+                              {"obj": 0, "call": "edit_script", "script": si, "set": edit}]
+                calls += [{"obj": 0, "call": "get_output", "full": True}, {"obj": 0, "call": "finalize"},
+                          {"obj": 0, "call": "new"}, {"obj": 0, "call": "resim"}]
             elif kind == "repeat4":
                 for _ in range(4):
                     calls += [{"obj": 0, "call": "setup", "script": 0}, {"obj": 0, "call": "schedule", "steps": sched, "max": 100000},
@@ -400,6 +468,7 @@ def run(ctx):
         steps = len(e["ref"]["T"]) - 1
         ctx.case((e["idx"], j["id"]), nontrivial=steps >= 2,
                  sample={"op": "schedule", "kind": kind, "engine": e["option"], "policy": e["info"]["policy"], "steps": steps, "schedule": j["sched"][:6]})
+        live_corr = False
         unexpected = [x for c, x in zip(j["calls"], r["results"]) if "raised" in x and not c.get("expect_raise")]
         not_refused = [c for c, x in zip(j["calls"], r["results"]) if c.get("expect_raise") and "raised" not in x]
         if not_refused and r["status"] == "ok":
@@ -428,6 +497,24 @@ def run(ctx):
                 ctx.violation("stored-script:noseed", "re-running trajectory.script (seed drawn at construction) does not reproduce the trajectory",
                               case, impl={"seed": outs[-2]["seed"], "first": outs[-2]["hash"], "rerun": outs[-1]["hash"]})
             continue
+        if kind in ("edit_live", "edit_live_noseed"):
+            ed = [x["ret"] for c, x in zip(j["calls"], r["results"]) if c["call"] == "edit_script"][0]
+            got = outs[0]        # the trajectory collected AFTER the caller's edit; outs[1] = re-run of its stored script
+            if got["seed"] != ed["seed_before"]:
+                ctx.violation("stored-script:live-aliased", "the caller set its script's seed (%r -> %r) between setup() and get_output(): the trajectory, simulated "
+                              "with seed %r, stores a script with seed %r" % (ed["seed_before"], ed["seed_after"], ed["seed_before"], got["seed"]), case,
+                              impl=got["seed"], expected=ed["seed_before"])
+            if outs[1]["hash"] != got["hash"]:
+                ctx.violation("stored-script:live-edit", "the caller edited its own script object (%s) between setup() and get_output(): re-running the script stored "
+                              "in the trajectory does not reproduce the trajectory" % ", ".join(sorted(j["calls"][[c["call"] for c in j["calls"]].index("edit_script")]["set"])),
+                              case, impl=outs[1]["hash"], expected=got["hash"])
+            if kind == "edit_live" and got["hash"] != e["ref"]["hash"]:
+                ctx.violation("bitwise:edit_live", "the caller edited its own script object while the engine held the simulation: the trajectory differs bitwise "
+                              "from the fresh-process reference of the script as set up", case, impl=got["hash"], expected=e["ref"]["hash"])
+            if kind == "edit_live" and j["calls"][1]["call"] == "schedule":
+                live_corr = True          # the model (scripts are values) replays the schedule; the caller's edit is not an event of it
+            else:
+                continue
         for x in r["results"]:
             for key, what, impl, exp in lc.init_failures(x):
                 ctx.violation(key, what, case, impl=impl, expected=exp)
@@ -474,6 +561,8 @@ def run(ctx):
                 ctx.violation("bitwise:repeat", "repetition %d of the same script on the same engine object differs bitwise from the fresh-process reference" % (k + 1),
                               case, impl=hs, expected=e["ref"]["hash"])
             continue
+        if live_corr:
+            outs = outs[:1]
         h = outs[-1]["hash"]
         if kind == "twice" and outs[0]["hash"] != outs[-1]["hash"]:
             ctx.violation("bitwise:same-script-twice", "running the same RDScript object twice gives two different trajectories", case,
@@ -484,7 +573,7 @@ def run(ctx):
         if kind == "resim" and outs[-2]["hash"] != h:
             ctx.violation("stored-script", "re-running trajectory.script does not reproduce the trajectory", case)
         # ---- correspondence: the model replays the schedule
-        if kind in ("schedule", "reused", "after_others", "twice"):
+        if kind in ("schedule", "reused", "after_others", "twice") or live_corr:
             srec = [x for c, x in zip(j["calls"], r["results"]) if c["call"] == "schedule"][-1]["ret"]
             if srec["ncalls"] <= 50 and not e.get("subnormal"):
                 T = e["ref"]["T"]
@@ -570,6 +659,13 @@ def replay(ctx, rec):
         ed = [x["ret"] for c, x in zip(job["calls"], r["results"]) if c["call"] == "edit_script" and "ret" in x]
         detail["edit"] = ed
         return (len(outs) >= 2 and outs[-1]["hash"] == outs[0]["hash"] and bool(ed) and ed[0]["stored_seed"] == ed[0]["seed_before"]), detail
+    if job.get("kind") in ("edit_live", "edit_live_noseed"):
+        ed = [x["ret"] for c, x in zip(job["calls"], r["results"]) if c["call"] == "edit_script" and "ret" in x]
+        detail["edit"] = ed
+        ok = len(outs) >= 2 and bool(ed) and outs[0]["seed"] == ed[0]["seed_before"] and outs[1]["hash"] == outs[0]["hash"]
+        if job.get("kind") == "edit_live":
+            ok = ok and outs[0]["hash"] == case.get("reference_hash")
+        return ok, detail
     if job.get("kind") == "repeat4":
         return (bool(outs) and all(o["hash"] == case.get("reference_hash") for o in outs)), detail
     if job.get("kind") in ("noseed", "resim"):
